@@ -261,3 +261,11 @@ def reads_recorded(O):
 def o_no_read_skipped(O):
     from . import C08
     C08.expr_eval_step(dri.WithRep(O, rep()))
+
+
+@obligation("C04/outputs-map-content", desc="EvalContext::set_outputs (<= 2 answer entries): the outputs map is rebuilt from "
+            "exactly the answer - nothing kept from earlier calls, X and Z stored as such - so a later read sees the most "
+            "recent value or fails on X / Z, never an older number")
+def o_outputs_map(O):
+    from . import C14
+    C14.outputs_map(dri.WithRep(O, rep()))
